@@ -98,12 +98,10 @@ theorem max_in_grid (ops : Ops α) (inp : Inp α) (es : List MEdge) (G : Nat) (h
       rfl
     rw [this]; exact hG
 
-/-- **Each node that is never a child takes the timepoint maximising its inside value**
-(first maximum, as `np.argmax`). -/
-theorem max_root_rule (ops : Ops α) (inp : Inp α) (es : List MEdge) (u : Nat) (hu : u < inp.n)
-    (hroot : ∀ e ∈ es, e.c ≠ u) (hfix : inp.fixed u = false) (hne : inp.inside u ≠ []) :
-    aget (maximize ops inp es) u = argmax (inp.inside u) ∧
-    IsFirstArgmax (inp.inside u) (aget (maximize ops inp es) u) := by
+/-- value of a node that is never a child (no condition on its inside row) -/
+theorem max_root_value (ops : Ops α) (inp : Inp α) (es : List MEdge) (u : Nat) (hu : u < inp.n)
+    (hroot : ∀ e ∈ es, e.c ≠ u) (hfix : inp.fixed u = false) :
+    aget (maximize ops inp es) u = argmax (inp.inside u) := by
   have hch : isChild (Order.runsBy (·.c) es) u = false := by
     by_contra hcon
     have hcon' : isChild (Order.runsBy (·.c) es) u = true := by simpa using hcon
@@ -112,11 +110,30 @@ theorem max_root_rule (ops : Ops α) (inp : Inp α) (es : List MEdge) (u : Nat) 
     have hmem : e ∈ es := by
       rw [← Order.runsBy_flatten (·.c) es]; exact List.mem_flatten.mpr ⟨g, hg, he⟩
     exact hroot e hmem (by simpa using hec)
-  have h1 : aget (maximize ops inp es) u = argmax (inp.inside u) := by
-    unfold maximize maximizeGroups
-    rw [root_untouched ops inp _ _ u hch, initRoots_get inp _ u hu]
-    simp [hch, hfix]
+  unfold maximize maximizeGroups
+  rw [root_untouched ops inp _ _ u hch, initRoots_get inp _ u hu]
+  simp [hch, hfix]
+
+/-- **Each node that is never a child takes the timepoint maximising its inside value**
+(first maximum, as `np.argmax`). -/
+theorem max_root_rule (ops : Ops α) (inp : Inp α) (es : List MEdge) (u : Nat) (hu : u < inp.n)
+    (hroot : ∀ e ∈ es, e.c ≠ u) (hfix : inp.fixed u = false) (hne : inp.inside u ≠ []) :
+    aget (maximize ops inp es) u = argmax (inp.inside u) ∧
+    IsFirstArgmax (inp.inside u) (aget (maximize ops inp es) u) := by
+  have h1 := max_root_value ops inp es u hu hroot hfix
   exact ⟨h1, by rw [h1]; exact argmax_isFirst _ hne⟩
+
+/-- value of a fixed node: the first grid index -/
+theorem max_fixed_value (ops : Ops α) (inp : Inp α) (es : List MEdge) (u : Nat) (hu : u < inp.n)
+    (hfix : inp.fixed u = true) : aget (maximize ops inp es) u = 0 := by
+  unfold maximize maximizeGroups
+  rw [fixed_untouched ops inp _ _ _ hfix, initRoots_get inp _ _ hu]
+  simp [hfix]
+
+theorem maximize_size (ops : Ops α) (inp : Inp α) (es : List MEdge) :
+    (maximize ops inp es).size = inp.n := by
+  unfold maximize maximizeGroups
+  rw [foldl_size, initRoots_size]
 
 /-- **The documented rule** (abstract form): every other non-fixed node takes the first argmax,
 over the grid indices `0 .. min parent index`, of `combine (Π_edges lik_e(parent index, ·)) inside`,
